@@ -484,6 +484,11 @@ def run(ctx, out, tier):
         _detect_once(ctx, out, _dv, rule="C19.detect")
     else:
         out.inst("C19.detect", 0, 4)
+    # what a validator found is only reported if the report keeps every violation (shared with C11)
+    from rules.C11 import check_items as _check_items
+    shared.run_renamed(out, lambda o: _check_items(ctx, o), "C11", "C19")
+    from rules.shared import check_detect_cases
+    check_detect_cases(ctx, out, ["check-ai"], rule="C19.detectcase")
     shared.sh_flags(ctx, out, "check-ai", "C19.flags")
     asyncval.check_index_alignment(ctx, out, "C19.index", NAME)
     return meta()
